@@ -218,7 +218,7 @@ ResultOKm(db, q, res, running) ==
       f == rel.f
       kept == IF q.where = <<>> THEN rel.rows ELSE SelectSeq(rel.rows, LAMBDA r : CondHolds(f, r, q.where))
       of == OutFields(f, q)
-  IN IF HasAgg(q) THEN
+  IN IF HasAgg(q) \/ q.group # <<>> THEN      \* GROUP BY without an aggregate still forms groups
         IF GroupBad(q) THEN res.err ELSE
         /\ ~res.err
         \* the aggregate rows (one for the whole input, or one per group - in no promised order) are what OFFSET / LIMIT cut
